@@ -136,4 +136,45 @@ theorem findC_loop_spec (s : St) (v c : Nat) (base : Base) (off : Nat) (a : List
         | some i => simp; omega
 
 
+theorem memcmpL_eq_zero : ∀ (a b : List Nat), a.length = b.length → (memcmpL a b = 0 ↔ a = b)
+  | [], [], _ => by simp [memcmpL]
+  | [], _ :: _, h => by simp at h
+  | _ :: _, [], h => by simp at h
+  | x :: xs, y :: ys, h => by
+    have ih := memcmpL_eq_zero xs ys (by simpa using h)
+    by_cases e : x = y
+    · simp [memcmpL, e, ih]
+    · simp [memcmpL, e]; omega
+
+theorem allSome_length {a : List Byte} {c : List Nat} (h : allSome a = some c) : c.length = a.length := by
+  rw [allSome_eq h, List.length_map]
+
+/-- `Memory::compare(p, q, n) == 0` decides the equality of the two ranges -/
+theorem memCompare_eq {α : Type} (g : Bool → α) (s : St) (p q : CPtr) (n : Nat) :
+    (memCompare s p q n).bind (fun r => some (g (decide (r = 0)))) = (do
+      let a ← rdRange s p.base p.off n
+      let a ← allSome a
+      let b ← rdRange s q.base q.off n
+      let b ← allSome b
+      pure (g (a == b))) := by
+  unfold memCompare
+  cases ha : rdRange s p.base p.off n with
+  | none => simp
+  | some a0 =>
+    cases ha' : allSome a0 with
+    | none => simp [ha']
+    | some a =>
+      cases hb : rdRange s q.base q.off n with
+      | none => simp [ha']
+      | some b0 =>
+        cases hb' : allSome b0 with
+        | none => simp [ha', hb']
+        | some b =>
+          have hl : a.length = b.length := by
+            rw [allSome_length ha', allSome_length hb', rdRange_length ha, rdRange_length hb]
+          simp only [ha', hb', Option.bind_eq_bind, Option.bind_some, Option.pure_def, memcmpL_eq_zero a b hl]
+          congr 2
+          by_cases e : a = b <;> simp [e]
+
+
 end Nstd.Str
